@@ -20,15 +20,35 @@ from ..impl import mx, close_all, quiet
 from modelx.core.errors import DeletedObjectError
 from modelx.core.base import null_impl
 
+F = S.F
 CFG = {
     "enum_always": ("del_space", "del_cells", "remove_bases", "del_ref", "del_mref"),
     "weights": {"new_space": 2.0, "del_space": 2.0, "new_cells": 3.0, "set_formula": 1.0, "del_cells": 3.0,
                 "rename_cells": 0.3, "add_bases": 2.0, "remove_bases": 2.5, "set_ref": 1.5, "del_ref": 1.5,
-                "set_mref": 0.3, "eval": 3.0, "evalall": 0.6, "bad": 0.3},
+                "set_mref": 0.3, "eval": 3.0, "evalall": 0.6, "bad": 0.3, "set_cached": 0.6},
+    # a reference that holds a cells or a space is a handle the MODEL keeps: a quarter of the references created
+    "obj_refs": 0.25,
+    # deletion must be complete whatever the caching mode of the deleted cells and of its readers
+    "uncached_variants": True,
+    "extra_motifs": [
+        # a DERIVED cells held by a reference of an unrelated space and called by name there (deleting the
+        # base member deletes the derived copy the reference holds)
+        [["new_space", "-", "A", []], ["set_ref", "A", "s", 2], ["new_cells", "A", "f", F(2, 1, "f", "s")],
+         ["new_space", "-", "B", ["A"]], ["new_space", "-", "C", []], ["set_ref", "C", "t", ["obj", "B.f"], "absolute"],
+         ["new_cells", "C", "g", F(9, 1, "g", "t")], ["new_cells", "C", "h", F(1, 1, "g")]],
+        # a cells and a space held by references of another space: called by name, read by attribute path
+        [["new_space", "-", "A", []], ["new_cells", "A", "f", F(0, 1)], ["new_cells", "A", "k", F(1, 1, "f")],
+         ["new_space", "-", "B", []], ["set_ref", "B", "t", ["obj", "A.k"], "absolute"],
+         ["set_ref", "B", "s", ["obj", "A"], "absolute"], ["new_cells", "B", "g", F(9, 1, "g", "t")],
+         ["new_cells", "B", "h", F(4, 1, "f", "r", "s")]],
+    ],
 }
 RULE = ("random histories (14-28 ops) rich in deletions (cells, spaces with descendants, references, base "
         "relations, base members) with handles taken at earlier points; non-trivial = a handle to a derived member "
         "or to an object inside a deleted space died")
+
+
+KNOWN_SPACE = "C13-deleted-space-uncached-cells"     # repaired by /repo 9b6c361: a `fixed` entry, excuses nothing
 
 
 def resolve(model, path, kind, name):
@@ -64,6 +84,8 @@ class H(S.Hooks):
         self.k = 0
         self.objrefs = False
         self.pre = None
+        self.uncached_in_deleted_space = False    # trigger of the known finding KNOWN_SPACE seen in this history
+        self.reported_dead_nodes = set()
 
     def before(self, live, ops, k, op, stats):
         self.pre = self.snapshot(live) if op[0] not in ("eval", "evalall") else None
@@ -78,6 +100,10 @@ class H(S.Hooks):
                 for cn, c in s.cells.items():
                     if not any(h[0] is c for h in self.handles) and len(self.handles) < 24:
                         self.handles.append((c, path, "cells", cn, bool(c._is_derived())))
+
+    @staticmethod
+    def node_id(node):
+        return (id(node[0]),) + tuple(repr(x) for x in node[1:])
 
     def snapshot(self, live):
         """ids of the live implementation objects and the current dependency edges"""
@@ -98,6 +124,15 @@ class H(S.Hooks):
 
     def after(self, live, ops, k, op, result, out, stats):
         if op[0] in ("eval", "evalall"):
+            # an evaluation must not bring a deleted object back: no node of the dependency graph belongs
+            # to an implementation object that is not in the model any more (nodes already reported after
+            # the deletion itself are not reported again)
+            alive = set(self.snapshot(live)[0])
+            for node in live.m._impl.tracegraph.nodes:
+                if id(node[0]) not in alive and self.node_id(node) not in self.reported_dead_nodes:
+                    out.fail("an evaluation put a node of a deleted object (%r) into the dependency graph: something "
+                             "was computed from it" % (node[0].name,), S.hist_json(ops, k))
+                    break
             return
         hist = S.hist_json(ops, k)
         m = live.m
@@ -108,6 +143,12 @@ class H(S.Hooks):
             impls0, edges0, nodes0 = self.pre
             impls1, _, _ = self.snapshot(live)
             dead = set(impls0) - set(impls1)
+            if any(len(n) == 1 and id(n[0]) in dead and hasattr(n[0], "is_cached") and not n[0].is_cached
+                   and id(getattr(n[0], "parent", None)) in dead for n in nodes0):
+                # a space (static or ItemSpace) went away together with an uncached cells that had been evaluated:
+                # the recorded finding KNOWN_SPACE (the key-less node of the cells and what was computed through it
+                # outlive the space)
+                self.uncached_in_deleted_space = True
             if dead:
                 succ = collections.defaultdict(list)
                 for a, b in edges0:
@@ -124,7 +165,8 @@ class H(S.Hooks):
                     if id(n[0]) in impls1 and len(n) == 2 and hasattr(n[0], "data") and n[1] in n[0].data \
                             and n[1] not in n[0].input_keys:
                         out.fail("%s%r still holds the value computed from an object deleted by %s" % (
-                            n[0].get_fullname() if hasattr(n[0], "get_fullname") else n[0].name, n[1], op[0]), hist)
+                            n[0].get_fullname() if hasattr(n[0], "get_fullname") else n[0].name, n[1], op[0]), hist,
+                            key=KNOWN_SPACE if self.uncached_in_deleted_space else None)
                         break
                 stats["deletions_examined"] += 1
         # every derived member still has a definer (nothing derived from a deleted base survives)
@@ -188,11 +230,14 @@ class H(S.Hooks):
                     out.fail("deleted cells %s.%s is still in %s.cells" % (path, name, p2), hist)
             self.handles = [x for x in self.handles if x[0] is not h]
         # the dependency graph mentions no dead object
-        for node in m._impl.tracegraph.nodes:
-            if id(node[0]) not in alive_impls:
-                out.fail("the dependency graph still has a node of a deleted object (%r)" % (node[0].name,), hist,
-                         key="C13-deleted-object-in-formula-globals" if self.objrefs else None)
-                break
+        deadnodes = [node for node in m._impl.tracegraph.nodes if id(node[0]) not in alive_impls]
+        self.reported_dead_nodes = {self.node_id(n) for n in deadnodes}
+        if deadnodes:
+            node = deadnodes[0]
+            only_keyless_uncached = all(len(n) == 1 and hasattr(n[0], "is_cached") and not n[0].is_cached for n in deadnodes)
+            out.fail("the dependency graph still has a node of a deleted object (%r)" % (node[0].name,), hist,
+                     key=KNOWN_SPACE if self.uncached_in_deleted_space and only_keyless_uncached else
+                     "C13-deleted-object-in-formula-globals" if self.objrefs else None)
 
     def end(self, live, ops, out, stats):
         mine = S.eval_everything(live)
@@ -206,7 +251,7 @@ class H(S.Hooks):
             if w is not None and w != v and "Deep" not in v + w:
                 out.fail("%s returns %s but a model to which only the edits were applied returns %s "
                          "(a value computed from a deleted object survived?)" % (q, v, w), S.hist_json(ops),
-                         key=_known(live, q, v, w))
+                         key=KNOWN_SPACE if self.uncached_in_deleted_space else _known(live, q, v, w))
                 break
 
 
